@@ -209,7 +209,9 @@ ensures
     %(env)s#[trigger] sem_holder(final(self).%(f)s, env) == and3(sem_holder(old(self).%(f)s, env), %(add)s),"""
     r_ic = [make_r_sub("R-into", r"<C>\(&mut self, condition: C\)", "<C: IntoCondition>(&mut self, condition: C)"),
             make_r_sub("R-into", r"where\s+C: IntoCondition,", ""), make_r_sub("R-inherent", r"^(\s*)pub fn", r"\1fn", flags=re.M, min_count=0), r_retself]
-    for st, f, fields in [("SelectStatement", "src/query/select.rs", ["where", "having", "join"]), ("UpdateStatement", "src/query/update.rs", ["where"]), ("DeleteStatement", "src/query/delete.rs", ["where"])]:
+    for st, f, fields in [("SelectStatement", "src/query/select.rs", ["where", "having", "join"]), ("UpdateStatement", "src/query/update.rs", ["where"]), ("DeleteStatement", "src/query/delete.rs", ["where"]),
+                          # the partial-index predicate of CREATE INDEX .. WHERE is built by the same calls
+                          ("IndexCreateStatement", "src/index/create.rs", ["where"])]:
         u.type_item(f, "struct", st, props=P, keep_fields=fields)
         u.emit("impl %s {\n" % st)
         u.fn(f, "impl ConditionalStatement for %s" % st, "cond_where", props=P, rules=r_ic, key="%s::cond_where" % st, vpath="%s::cond_where" % st,
